@@ -428,6 +428,13 @@ def run_all(modname, tier, jobs):
             again = mapper(_unit, [units[i] for i in redo])
             for i, p in zip(redo, again):
                 if isinstance(p, dict) and ("crash" not in p or "crash" in parts[i]):
+                    # a candidate-only refutation that a fresh process repeats is no longer put down to a solver hiccup
+                    was = {o.get("name") for o in (parts[i].get("obs") or []) if isinstance(o, dict) and o.get("status") == "failed"
+                           and "candidate" in str(o.get("backend", ""))}
+                    for o in p.get("obs") or []:
+                        if isinstance(o, dict) and o.get("status") == "failed" and "candidate" in str(o.get("backend", "")) \
+                                and o.get("name") in was and isinstance(o.get("detail"), dict):
+                            o["detail"]["repeated_in_fresh_process"] = True
                     parts[i] = p
     finally:
         pass
@@ -624,6 +631,7 @@ def main(prop, tier, seed, jobs=None, update_baseline=False):
                 undecided.append((name, f"sat-on-an-over-approximated-path {imprecise}", last_path))
             elif not o["meta"].get("definite") and new_fail and all(
                     "candidate" in str(((fl.get("detail") or {}) if isinstance(fl.get("detail"), dict) else {}).get("backend", ""))
+                    and not ((fl.get("detail") or {}) if isinstance(fl.get("detail"), dict) else {}).get("repeated_in_fresh_process")
                     for fl in new_fail):
                 # the solver could not decide the query; what it offered is a model of the quantifier-free part only.  Without
                 # a native witness that is not a refutation (DESIGN 5: a violation needs a definite sat)
